@@ -319,8 +319,38 @@ func vShorthandsVsLonghands() (int, []string) {
 			compare(sh[0]+": "+strings.Join(hs[:nh], " "), strings.Join(longs, "; "))
 		}
 	}
+	// spelling: keywords, units and property names are ASCII case-insensitive (CSS Syntax 3 §4, css-values §3.1):
+	// the upper-case spelling of a declaration assigns what the lower-case spelling assigns, and something
+	for _, text := range []string{
+		"columns: auto 10em", "columns: 10em auto", "columns: auto 3", "columns: 3 auto", "columns: auto auto", "columns: auto",
+		"flex: none", "flex: auto", "flex: 1 1 auto", "flex: 2 0 10px", "flex-flow: row-reverse wrap",
+		"border: thin solid red", "border-left: medium dashed blue", "margin: auto 1px", "padding: 1em 2ex 3px 4pt",
+		"text-decoration: underline dotted", "word-wrap: break-word", "page-break-before: always", "page-break-inside: avoid",
+		"list-style: none inside", "outline: thick double red", "border-radius: 1px 2em / 3pt", "column-rule: thin dotted red",
+		"font: italic bold 12px/1.5 serif", "font-variant: small-caps", "line-clamp: 2 \"x\"", "text-align: justify-all",
+	} {
+		n++
+		lower, upper := vDeclared(text), vDeclared(strings.ToUpper(text))
+		if len(lower) == 0 {
+			fail("%q: nothing understood", text)
+		}
+		if !reflect.DeepEqual(lower, upper) {
+			fail("%q: the upper-case spelling assigns %v, the lower-case one %v", text, upper, lower)
+		}
+	}
 	return n, fails
 }
 
-//@ bounded vShorthandsVsLonghands 8 shorthands x every subset and order of their components x 3 spellings, 192 one- to three-layer background shorthands, border-radius with 1-4 horizontal and 0-4 vertical radii and three four-sides shorthands with 1-4 values, against the equivalent longhand declarations
+//@ bounded vShorthandsVsLonghands 8 shorthands x every subset and order of their components x 3 spellings, 192 one- to three-layer background shorthands, border-radius with 1-4 horizontal and 0-4 vertical radii and three four-sides shorthands with 1-4 values, against the equivalent longhand declarations; 27 declarations in upper case against their lower-case spelling
 //@   props C08
+
+// border-radius: the index reads of the two radius lists are safe (each list holds exactly four values
+// when the corners are built)
+//@ func _borderRadius
+//@   props C07 C08
+//@   nopanic
+//@   modifies anything
+//@   requires forall(j, 0, len(tokens), tokens[j] != nil)
+//@   loop 1 invariant current != nil
+//@   loop 2 invariant (rangeindex >= 0 ==> len(horizontal) == 4) && (rangeindex >= 1 ==> len(vertical) == 4)
+//@   loop 3 invariant len(horizontal) == 4 && len(vertical) == 4
